@@ -2,7 +2,7 @@
 //! Monitor: O-sem (explicit-state oracle) on the result of every public entry point.
 
 use super::common::*;
-use crate::form::{FormOpts, gen_formula};
+use crate::form::{ALL_BIN, FormOpts, gen_formula};
 use crate::json::J;
 use crate::net::NetOpts;
 use crate::rng::Rng;
@@ -72,6 +72,10 @@ fn run(rng: &mut Rng, _idx: u64, tier: Tier) -> CaseOut {
         nopts.max_vars = nopts.max_vars.min(3);
     } else if depth == 2 {
         nopts.max_vars = nopts.max_vars.min(4);
+    }
+    if rng.chance(1, 5) {
+        // the weak-until operators as well (C13 owns their laws; here they are just two more operators of closed formulae)
+        fopts.bin_ops = ALL_BIN.to_vec();
     }
     let extra_k = rng.below(3) as u16;
     let net = crate::net::gen_net(rng, &nopts);
